@@ -9,13 +9,23 @@ TRUSTED_BASE = [
     "the scaling theorems are about the model; each functional estimator is tied to the model by the correspondence of its own "
     "property, and here again on the SCALED input c*x (Burg, Yule-Walker, correlation, periodogram, adaptive multitaper)",
     "SVD-based decisions (MUSIC/EV subspace, threshold, AIC/MDL) are covered relative to the SVD contract; checked by the oracle",
+    "the oracle compares the library on c*x with the stated multiple of the library on x (the property is a relation between two runs "
+    "of one estimator; the reference side is the scaling law itself, written in the oracle)",
 ]
 PARTIAL = ["MUSIC/EV: relative to the SVD parameter (singular values scale by |c|, right singular subspaces unchanged)",
            "adaptive multitaper: the whole 100-pass loop is proved scale-free in exact arithmetic (C03.mt_adapt_scale_data); a floating-point "
            "run whose distance sits exactly at the tolerance could stop one pass apart - outside the model"]
-ASSUMPTIONS = ["1e-3 <= |c| <= 1e3; complex c for complex data; orders/lags/NFFT inside each estimator's documented domain"]
-RULE = ("random data (real/complex) x scalars c in {1e-3, -3, 1e3, 2-1j, 1e-3j, random} x every functional estimator and every class "
-        "variant (14) x all six Burg criteria x eigen criteria (aic, mdl, threshold, explicit NSIG)")
+ASSUMPTIONS = ["1e-3 <= |c| <= 1e3; complex c for complex data; orders/lags/NFFT inside each estimator's documented domain",
+               "integer-typed records are scaled by an integer c (the scaled record is again integer-typed); class detrend in {None, 'mean'}; "
+               "eigen threshold >= 1, 0 <= NSIG < P",
+               "every observation point is compared max-normalised at 1e-6 (1e-7 for the Burg / Levinson / correlation / periodogram "
+               "recursions in the N=40 function form); the unchanged library stays below 1e-9 on every case family"]
+RULE = ("random data (real/complex; N = 40, 9, 256, 257, 300, 1024; float, int64 with integer c, list input) x scalars c in {1e-3, -3, 1e3, "
+        "-0.37, -1000, 7.3, 2-1j, 1e-3j, random} x every functional estimator (default and explicit arguments, ARMA with P<=4 and P>4, "
+        "P!=Q, auto and cross correlation forms, matrix periodogram, dpss-supplied tapers) and every class variant (14; default, random, "
+        "boundary and explicit configurations; every window name; scale_by_freq False/True/class default) x all six Burg criteria x eigen "
+        "criteria (aic, mdl, threshold, explicit NSIG incl. 0 and P-1); class observation points psd, ar, ma, rho, reflection, weights, "
+        "eigenvalues")
 
 CRITS = ["AIC", "AICc", "KIC", "FPE", "AKICc", "MDL"]
 
@@ -63,9 +73,22 @@ def oracle_func(p):
     A1, B1, r1 = sp.arma_estimate(x, 3, 3, 8)
     A2, B2, r2 = sp.arma_estimate(y, 3, 3, 8)
     chk("arma AR", A2, A1, 1e-6); chk("arma MA", B2, B1, 1e-6); chk("arma variance", [r2], [s * r1], 1e-6)
+    # the P > 4 branch of arma_estimate (arcovar instead of arcovar_marple on the lag sequence), P != Q, largest lag
+    N = len(x)
+    for (P, Q, lag) in ((5, 3, 14), (6, 6, 20), (8, 2, 18), (5, 5, N - 5), (1, 3, 8)):
+        if lag <= max(Q, 1) or lag - Q + P > N - P or lag >= N:
+            continue
+        A1, B1, r1 = sp.arma_estimate(x, P, Q, lag)
+        A2, B2, r2 = sp.arma_estimate(y, P, Q, lag)
+        nm = "arma_estimate(P=%d,Q=%d,lag=%d)" % (P, Q, lag)
+        chk(nm + " AR", A2, A1, 1e-6); chk(nm + " MA", B2, B1, 1e-6); chk(nm + " variance", [r2], [s * r1], 1e-6)
+    a1, r1, k1 = sp.aryule(x, 5, norm="unbiased")
+    a2, r2, k2 = sp.aryule(y, 5, norm="unbiased")
+    chk("aryule(unbiased) coefficients", a2, a1, 1e-6); chk("aryule(unbiased) variance", [r2], [s * r1], 1e-6)
+    chk("aryule(unbiased) reflection", k2, k1, 1e-6)
     p1, A1, k1 = sp.minvar(x, 5, NFFT=32)
     p2, A2, k2 = sp.minvar(y, 5, NFFT=32)
-    chk("minvar PSD", p2, s * p1); chk("minvar AR", A2, A1)
+    chk("minvar PSD", p2, s * p1); chk("minvar AR", A2, A1); chk("minvar reflection", k2, k1)
     for kw in (dict(NSIG=2), dict(), dict(criteria="mdl"), dict(threshold=2.0)):
         p1, s1 = sp.music(x, 6, NFFT=32, **kw)
         p2, s2 = sp.music(y, 6, NFFT=32, **kw)
@@ -95,6 +118,140 @@ def oracle_func(p):
             out.append("arburg criterion %s selects order %d for x and %d for c*x (c=%r)" % (crit, len(a1), len(a2), c))
         else:
             chk("arburg(%s) coefficients" % crit, a2, a1)
+            chk("arburg(%s) variance" % crit, [r2], [s * r1]); chk("arburg(%s) reflection" % crit, k2, k1)
+    # default arguments (detrend=True, scale_by_freq=True, hamming, NFFT=N) and an odd NFFT with a sampling frequency
+    chk("speriodogram(defaults)", sp.speriodogram(y), s * np.asarray(sp.speriodogram(x)))
+    chk("speriodogram(NFFT=65, sampling=3)", sp.speriodogram(y, NFFT=65, sampling=3.), s * np.asarray(sp.speriodogram(x, NFFT=65, sampling=3.)))
+    if N >= 40:
+        X = np.column_stack([x[0:16], x[12:28], x[24:40]])        # 16 x 3 matrix: one periodogram per column
+        for det in (False, True):
+            m1 = np.asarray(sp.speriodogram(X, detrend=det))
+            m2 = np.asarray(sp.speriodogram(c * X, detrend=det))
+            if m1.shape != m2.shape or m1.ndim != 2:
+                out.append("speriodogram(16x3 matrix, detrend=%s): shapes %r / %r" % (det, m1.shape, m2.shape))
+            else:
+                chk("speriodogram(16x3 matrix, detrend=%s)" % det, m2, s * m1)
+    # cross forms, BOTH records scaled: r_xy and the cross correlogram are sesquilinear, hence |c|^2 (coeff: unchanged)
+    z = _second(p, x)
+    w = c * z
+    for norm in ("biased", "unbiased", None, "coeff"):
+        f = 1.0 if norm == "coeff" else s
+        chk("CORRELATION(x, y, %s)" % norm, sp.CORRELATION(y, w, maxlags=7, norm=norm), f * np.asarray(sp.CORRELATION(x, z, maxlags=7, norm=norm)))
+        chk("xcorr(x, y, %s)" % norm, sp.xcorr(y, w, maxlags=7, norm=norm)[0], f * np.asarray(sp.xcorr(x, z, maxlags=7, norm=norm)[0]))
+        chk("xcorr(x, %s)" % norm, sp.xcorr(y, maxlags=9, norm=norm)[0], f * np.asarray(sp.xcorr(x, maxlags=9, norm=norm)[0]))
+        for m in ("xcorr", "CORRELATION"):
+            chk("CORRELOGRAMPSD(X, Y, norm=%s, %s)" % (norm, m), sp.CORRELOGRAMPSD(y, w, lag=6, NFFT=33, norm=norm, correlation_method=m),
+                f * np.asarray(sp.CORRELOGRAMPSD(x, z, lag=6, NFFT=33, norm=norm, correlation_method=m)))
+    # tapers supplied by the caller (e=, v=) instead of NW
+    from spectrum.mtm import dpss
+    v, e = dpss(N, 3.0, 5)
+    for meth in ("unity", "eigen", "adapt"):
+        S1, w1, e1 = sp.pmtm(x, e=e, v=v, NFFT=2 * N + 1, method=meth, show=False)
+        S2, w2, e2 = sp.pmtm(y, e=e, v=v, NFFT=2 * N + 1, method=meth, show=False)
+        chk("pmtm(e=, v=, %s) eigenspectra" % meth, S2, c * np.asarray(S1))
+        chk("pmtm(e=, v=, %s) weights" % meth, w2, w1, 1e-6)
+        chk("pmtm(e=, v=, %s) eigenvalues" % meth, e2, e1)
+    return out
+
+
+def _second(p, x):
+    """the second record of the cross forms: p['y'] when the case carries one (same length and kind as x), else derived from x"""
+    z = p.get("y")
+    if z is not None and len(z) == len(x):
+        z = np.asarray(z)
+        if np.iscomplexobj(x) and not np.iscomplexobj(z):
+            z = z.astype(complex)
+        if np.iscomplexobj(x) or not np.iscomplexobj(z):
+            return z
+    x = np.asarray(x)
+    return 0.5 * x[::-1] + np.roll(x, 3)
+
+
+def _record(p):
+    """(x, c*x) as handed to the library: float / complex arrays, an integer-typed array with an integer c, or python lists"""
+    x = np.asarray(p["x"])
+    c = p["c"]
+    y = c * x
+    if p.get("aslist"):
+        return [v.item() for v in x], [v.item() for v in y]
+    return x, y
+
+
+def oracle_funcx(p):
+    """the functional estimators with orders / lags / NFFT taken from the case (long and very short records, boundary orders,
+    integer-typed and list input)"""
+    sp = C.sp()
+    x, y = _record(p)
+    c = p["c"]
+    a = abs(c)
+    s = a ** 2
+    N = len(x)
+    q = p["q"]
+    tol = p.get("tol", 1e-6)
+    out = []
+    what = "%s%s N=%d" % ("complex" if np.iscomplexobj(np.asarray(x)) else "real", " list" if p.get("aslist") else " " + str(np.asarray(x).dtype), N)
+
+    def run(name, f, facs, t=None):
+        try:
+            o1 = f(x)
+        except Exception as e1:
+            try:
+                f(y)
+            except Exception:
+                out.append("%s (%s): raises on in-domain input: %r" % (name, what, e1))
+                return
+            out.append("%s (%s): raises on x but not on c*x (c=%r): %r" % (name, what, c, e1))
+            return
+        try:
+            o2 = f(y)
+        except Exception as e2:
+            out.append("%s (%s): raises on c*x only (c=%r): %r" % (name, what, c, e2))
+            return
+        for i, fac in enumerate(facs):
+            if fac is None:
+                continue
+            r = rel(c_(np.atleast_1d(o2[i])), fac * c_(np.atleast_1d(o1[i])))
+            if r > (t or tol):
+                out.append("%s output %d (%s): not equivariant under x -> c*x with c=%r: rel err %.2e" % (name, i, what, c, r))
+
+    for od in q.get("burg", ()):
+        run("arburg(%d)" % od, lambda d: sp.arburg(d, od), (1, s, 1))
+    for od in q.get("yule", ()):
+        run("aryule(%d)" % od, lambda d: sp.aryule(d, od), (1, s, 1))
+        run("aryule(%d, unbiased)" % od, lambda d: sp.aryule(d, od, norm="unbiased"), (1, s, 1))
+    for od in q.get("covar", ()):
+        run("arcovar(%d)" % od, lambda d: sp.arcovar(d, od), (1, s))
+        run("modcovar(%d)" % od, lambda d: sp.modcovar(d, od), (1, s))
+        run("arcovar_marple(%d)" % od, lambda d: (sp.arcovar_marple(d, od)[0][:od], sp.arcovar_marple(d, od)[1]), (1, s))
+        run("modcovar_marple(%d)" % od, lambda d: (sp.modcovar_marple(d, od)[0][:od], sp.modcovar_marple(d, od)[1]), (1, s))
+    for (Q, M) in q.get("ma", ()):
+        run("ma(%d,%d)" % (Q, M), lambda d: sp.ma(d, Q, M), (1, s))
+    for (P, Q, lag) in q.get("arma", ()):
+        run("arma_estimate(%d,%d,%d)" % (P, Q, lag), lambda d: sp.arma_estimate(d, P, Q, lag), (1, 1, s))
+    for (od, nf) in q.get("minvar", ()):
+        run("minvar(%d, NFFT=%d)" % (od, nf), lambda d: sp.minvar(d, od, NFFT=nf), (s, 1, 1))
+    for (P, nf, kw) in q.get("eigen", ()):
+        run("music(%d, NFFT=%d, %s)" % (P, nf, kw), lambda d: sp.music(d, P, NFFT=nf, **kw), (1, a))
+        run("ev(%d, NFFT=%d, %s)" % (P, nf, kw), lambda d: sp.ev(d, P, NFFT=nf, **kw), (a, a))
+    for crit in q.get("crit", ()):
+        od = q["critorder"]
+        run("arburg(%d, %s)" % (od, crit), lambda d: sp.arburg(d, od, crit), (1, s, 1))
+    for lag in q.get("corr", ()):
+        for norm in ("biased", "unbiased", None, "coeff"):
+            f = 1.0 if norm == "coeff" else s
+            run("CORRELATION(maxlags=%d, %s)" % (lag, norm), lambda d: (sp.CORRELATION(d, maxlags=lag, norm=norm),), (f,))
+            run("xcorr(maxlags=%d, %s)" % (lag, norm), lambda d: (sp.xcorr(d, maxlags=lag, norm=norm)[0],), (f,))
+    for (lag, nf) in q.get("correlogram", ()):
+        for m in ("xcorr", "CORRELATION"):
+            run("CORRELOGRAMPSD(lag=%d, NFFT=%d, %s)" % (lag, nf, m), lambda d: (sp.CORRELOGRAMPSD(d, lag=lag, NFFT=nf, correlation_method=m),), (s,))
+    for kw in q.get("sper", ()):
+        run("speriodogram(%s)" % kw, lambda d: (sp.speriodogram(d, **kw),), (s,))
+    for (NW, k, nf) in q.get("mtm", ()):
+        for meth in ("unity", "eigen", "adapt"):
+            if meth == "adapt" and k is not None and k < 2:
+                continue
+            # eigenspectra are linear in the data (times c itself), weights and concentrations unchanged
+            run("pmtm(NW=%g, k=%r, NFFT=%d, %s)" % (NW, k, nf, meth), lambda d: sp.pmtm(d, NW=NW, k=k, NFFT=nf, method=meth, show=False), (c, 1, 1))
     return out
 
 
@@ -120,19 +277,89 @@ def oracle_bigeigen(p):
     return out
 
 
+def _make(p, d):
+    """the class instance of case p on the record d.  Plain configurations go through classes.make; the decision options of the
+    constructors (opt: criteria / threshold / norm / detrend / dpss-supplied tapers) and the class-default scale_by_freq
+    (scale == "default": the keyword is not passed) call the constructors here."""
+    s = C.sp()
+    cls = p["cls"]
+    fs = p.get("fs", 1.0)
+    scale = p.get("scale", False)
+    opt = p.get("opt") or {}
+    if not opt and scale != "default":
+        return C.make(cls, d, p["nfft"], fs, scale, p.get("cfg"))
+    cfg = p.get("cfg") or C.default_cfg(cls, len(d), np.iscomplexobj(np.asarray(d)))
+    kw = dict(NFFT=p["nfft"], sampling=fs)
+    if scale != "default":
+        kw["scale_by_freq"] = scale
+    if cls == "Periodogram":
+        return s.Periodogram(d, window=cfg.get("window", "hann"), detrend=opt.get("detrend"), **kw)
+    if cls == "pcorrelogram":
+        return s.pcorrelogram(d, lag=cfg["lag"], window=cfg.get("window", "hamming"), **kw)
+    if cls == "pburg":
+        return s.pburg(d, cfg["order"], criteria=opt.get("criteria"), **kw)
+    if cls == "pyule":
+        return s.pyule(d, cfg["order"], norm=opt.get("norm", "biased"), **kw)
+    if cls == "pcovar":
+        return s.pcovar(d, cfg["order"], **kw)
+    if cls == "pmodcovar":
+        return s.pmodcovar(d, cfg["order"], **kw)
+    if cls == "parma":
+        return s.parma(d, cfg["order"], cfg["Q"], cfg["lag"], **kw)
+    if cls == "pma":
+        return s.pma(d, cfg["Q"], cfg["M"], **kw)
+    if cls == "pminvar":
+        return s.pminvar(d, cfg["order"], **kw)
+    if cls in ("pmusic", "pev"):
+        k2 = {}
+        if "threshold" in opt:
+            k2["threshold"] = opt["threshold"]
+        if "criteria" in opt:
+            k2["criteria"] = opt["criteria"]
+        return getattr(s, cls)(d, cfg["order"], NSIG=cfg.get("nsig"), **dict(kw, **k2))
+    if cls.startswith("MT-"):
+        if opt.get("dpss"):
+            from spectrum.mtm import dpss
+            v, e = dpss(len(d), opt["dpss"][0], opt["dpss"][1])
+            return s.MultiTapering(d, e=e, v=v, method=cls[3:], **kw)
+        return s.MultiTapering(d, NW=cfg.get("NW", 2.5), k=cfg.get("k"), method=cls[3:], **kw)
+    raise ValueError(cls)
+
+
 def oracle_class(p):
-    x = np.asarray(p["x"])
+    x, y = _record(p)
     c = p["c"]
     cls = p["cls"]
-    o1 = C.make(cls, x, p["nfft"], 1.0, False, p.get("cfg"))
-    o2 = C.make(cls, c * x, p["nfft"], 1.0, False, p.get("cfg"))
+    tol = p.get("tol", 1e-6)
+    o1 = _make(p, x)
+    o2 = _make(p, y)
     a1, a2 = np.asarray(o1.psd), np.asarray(o2.psd)
     fac = 1.0 if cls == "pmusic" else (abs(c) if cls == "pev" else abs(c) ** 2)
-    if np.iscomplexobj(a2) or a1.shape != a2.shape or rel(a2, fac * a1) > 1e-6:
-        return ["%s PSD of c*x is not %s times the PSD of x (c=%r, %s data): rel err %.2e" % (
-            cls, {1.0: "1"}.get(fac, "|c|" if cls == "pev" else "|c|^2"), c, "complex" if np.iscomplexobj(x) else "real",
+    what = "c=%r, %s data, N=%d, cfg=%r, opt=%r" % (c, "complex" if np.iscomplexobj(np.asarray(x)) else "real", len(x), p.get("cfg"), p.get("opt"))
+    if np.iscomplexobj(a2) or a1.shape != a2.shape or rel(a2, fac * a1) > tol:
+        return ["%s PSD of c*x is not %s times the PSD of x (%s): rel err %.2e" % (
+            cls, {1.0: "1"}.get(fac, "|c|" if cls == "pev" else "|c|^2"), what,
             rel(a2, fac * a1) if a1.shape == a2.shape and not np.iscomplexobj(a2) else float("inf"))]
-    return []
+    # the other observation points of the instance: noise variance x |c|^2; AR / MA / reflection coefficients, multitaper weights and
+    # taper concentrations unchanged (same number of them: same order decision); singular values of the data matrix x |c|
+    out = []
+    eig = abs(c) if cls in ("pmusic", "pev") else 1.0
+    for nm, f in (("rho", abs(c) ** 2), ("ar", 1.0), ("ma", 1.0), ("reflection", 1.0), ("weights", 1.0), ("eigenvalues", eig)):
+        v1 = getattr(o1, nm, None)
+        v2 = getattr(o2, nm, None)
+        if v1 is None and v2 is None:
+            continue
+        if v1 is None or v2 is None:
+            out.append("%s.%s is None for one of x, c*x only (%s)" % (cls, nm, what))
+            continue
+        v1, v2 = c_(v1), c_(v2)
+        if v1.shape != v2.shape:
+            out.append("%s.%s has %d entries for x and %d for c*x: the order / subspace decision depends on the amplitude (%s)" % (
+                cls, nm, v1.size, v2.size, what))
+        elif rel(v2, f * v1) > tol:
+            law = "|c|^2 times" if nm == "rho" else ("|c| times" if nm == "eigenvalues" and cls in ("pmusic", "pev") else "equal to")
+            out.append("%s.%s of c*x is not %s the one of x (%s): rel err %.2e" % (cls, nm, law, what, rel(v2, f * v1)))
+    return out
 
 
 # correspondence on the scaled input: model(c*x) vs impl(c*x)
@@ -180,21 +407,43 @@ def post_scaled(p, iv, mv):
 
 def _key(p):
     x = np.asarray(p["x"])
-    return "%s|%s|%s|%r|%d" % (p.get("cls"), p.get("fn"), p.get("crit"), p["c"], hash(x.tobytes()) & 0xFFFFF)
+    extra = ""
+    for k in ("cfg", "opt", "scale", "fs", "nfft", "aslist", "q"):
+        if p.get(k) is not None and k in p:
+            extra += "|%s=%r" % (k, p[k])
+    if extra:
+        extra = "|%d" % (hash(extra) & 0xFFFFFF) if len(extra) > 120 else extra
+    return "%s|%s|%s|%r|%d%s" % (p.get("cls"), p.get("fn"), p.get("crit"), p["c"], hash(x.tobytes()) & 0xFFFFF, extra)
 
 
 def _tags(p):
     c = p["c"]
-    return ["complex" if np.iscomplexobj(p["x"]) else "real", "c:" + ("complex" if isinstance(c, complex) else ("small" if abs(c) < 1 else "large")),
-            "cls:%s" % p.get("cls", "-"), "fn:%s" % p.get("fn", "-")]
+    x = np.asarray(p["x"])
+    t = ["complex" if np.iscomplexobj(x) else "real", "c:" + ("complex" if isinstance(c, complex) else ("small" if abs(c) < 1 else "large")),
+         "cls:%s" % p.get("cls", "-"), "fn:%s" % p.get("fn", "-"), "N:%d" % len(x)]
+    if x.dtype.kind in "iu":
+        t.append("dtype:int")
+    if p.get("aslist"):
+        t.append("input:list")
+    if "cls" in p:
+        t.append("cfg:" + ("explicit" if p.get("explicit") else ("random" if p.get("cfg") else "default")))
+        for k in sorted(p.get("opt") or {}):
+            t.append("opt:%s" % k)
+        if p.get("scale", False) is not False:
+            t.append("scale:%s" % p["scale"])
+    return t
 
 
 KINDS = {
     "bigeigen": {"oracle": oracle_bigeigen, "key": _key, "tags": lambda p: ["bigeigen:P=%d" % p["P"]]},
     "func": {"oracle": oracle_func, "key": _key, "tags": _tags},
+    "funcx": {"oracle": oracle_funcx, "key": _key, "tags": _tags},
     "class": {"oracle": oracle_class, "key": _key, "tags": _tags},
     "scaled": {"impl": impl_scaled, "model": model_scaled, "post": post_scaled, "rtol": 1e-6, "atol": 1e-300, "key": _key, "tags": _tags},
 }
+# the degenerate variants of vcheck.vary (exact zeros, one dominant tone) make the boundary-order / long-order normal equations of funcx
+# singular to working precision; funcx keeps the amplitude and stride variants
+NO_DEGEN = {"funcx"}
 
 
 def _data(nrng, N, cplx):
@@ -206,48 +455,238 @@ def _data(nrng, N, cplx):
     return x
 
 
-def _scalars(nrng, cplx, i):
-    base = [0.001, -3.0, 1000.0, float(10 ** nrng.uniform(-3, 3))]
+def _data2(nrng, N, cplx):
+    """noise plus a tone, any length"""
+    n = np.arange(N)
+    x = nrng.standard_normal(N) + np.cos(0.7 * n + nrng.uniform(0, 6))
     if cplx:
-        base += [2 - 1j, 1e-3j, complex(10 ** nrng.uniform(-3, 3) * np.exp(1j * nrng.uniform(0, 6)))]
+        x = x + 1j * nrng.standard_normal(N) + 0.7 * np.exp(-2j * np.pi * 0.31 * n)
+    return x
+
+
+def _scalars(nrng, cplx, i):
+    rnd = float(10 ** nrng.uniform(-3, 3))
+    if cplx:
+        rc = complex(10 ** nrng.uniform(-3, 3) * np.exp(1j * nrng.uniform(0, 6)))
+        base = [2 - 1j, 0.001, 1e-3j, -3.0, rc, 1000.0, -0.37, rnd, -1000.0, 7.3]
+    else:
+        base = [0.001, -3.0, 1000.0, rnd, -0.37, -1000.0, 7.3]
     return base[i % len(base)]
 
 
+def _class_specs(N):
+    """explicit (class, cfg, opt, extra) configurations for a record of length N >= 40: fixed small / middle / boundary orders, P != Q
+    and P > 4 for ARMA, extreme subspace sizes, every window name, every decision option of the constructors"""
+    from spectrum.window import window_names
+    S = []
+    for od in (1, 9, N - 2):
+        S.append(("pburg", {"order": od}, None, {}))
+    for od in (1, 9, N - 1):
+        S.append(("pyule", {"order": od}, None, {}))
+    for od in (1, 9, N // 2 - 1):
+        S.append(("pcovar", {"order": od}, None, {}))
+        S.append(("pmodcovar", {"order": od}, None, {}))
+    for od in (2, 12, N // 2):
+        S.append(("pminvar", {"order": od}, None, {}))
+    for (P, Q, lag) in ((5, 2, 14), (1, 3, 8), (6, 6, 20), (8, 2, 18)):
+        S.append(("parma", {"order": P, "Q": Q, "lag": lag}, None, {}))
+    for (Q, M) in ((1, 2), (5, 12), (3, N - 1)):
+        S.append(("pma", {"Q": Q, "M": M}, None, {}))
+    for cls in ("pmusic", "pev"):
+        for (P, ns) in ((8, 7), (3, 1), (6, 0), (6, 5)):
+            S.append((cls, {"order": P, "nsig": ns}, None, {}))
+        for th in (1.5, 10.0, 1.0):
+            S.append((cls, {"order": 6, "nsig": None}, {"threshold": th}, {}))
+        for cr in ("aic", "mdl"):
+            S.append((cls, {"order": 6, "nsig": None}, {"criteria": cr}, {}))
+            S.append((cls, {"order": 12, "nsig": None}, {"criteria": cr}, {}))
+    for m in ("eigen", "unity", "adapt"):
+        S.append(("MT-" + m, {"NW": 4, "k": 8}, None, {}))
+        S.append(("MT-" + m, {"NW": 1.5, "k": 1 if m != "adapt" else 2}, None, {}))
+        S.append(("MT-" + m, {"NW": 2.5, "k": 4}, {"dpss": (2.5, 4)}, {}))
+        S.append(("MT-" + m, {"NW": 3.0, "k": 5}, {"dpss": (3.0, 5)}, {"scale": "default", "fs": 3.0}))
+    for w in sorted(window_names):
+        S.append(("Periodogram", {"window": w}, None, {}))
+    S.append(("Periodogram", {"window": "hann"}, {"detrend": "mean"}, {}))
+    S.append(("Periodogram", {"window": "hamming"}, {"detrend": "mean"}, {"scale": True, "fs": 5.0}))
+    for cr in CRITS:
+        S.append(("pburg", {"order": 10}, {"criteria": cr}, {}))
+    S.append(("pyule", {"order": 4}, {"norm": "unbiased"}, {}))
+    S.append(("pyule", {"order": 9}, {"norm": "unbiased"}, {"scale": "default", "fs": 7.0}))
+    for cls in C.CLASSES:                      # scale_by_freq: True and the class's own default, with a sampling frequency
+        S.append((cls, None, None, {"scale": True, "fs": 7.0}))
+        S.append((cls, None, None, {"scale": "default", "fs": 7.0}))
+    return S
+
+
+def _long_specs(N):
+    S = [("Periodogram", {"window": "hamming"}, None, {}), ("pcorrelogram", {"lag": 20, "window": "hamming"}, None, {}),
+         ("pcorrelogram", {"lag": 40, "window": "bartlett"}, None, {}), ("pburg", {"order": 12}, None, {}), ("pyule", {"order": 12}, None, {}),
+         ("pcovar", {"order": 12}, None, {}), ("pmodcovar", {"order": 12}, None, {}), ("parma", {"order": 6, "Q": 6, "lag": 30}, None, {}),
+         ("pma", {"Q": 6, "M": 20}, None, {}), ("pminvar", {"order": 12}, None, {}),
+         ("pmusic", {"order": 30, "nsig": None}, {"criteria": "mdl"}, {}), ("pev", {"order": 30, "nsig": None}, {"threshold": 3.0}, {}),
+         ("pmusic", {"order": 30, "nsig": None}, {"threshold": 3.0}, {}), ("pev", {"order": 30, "nsig": None}, {"criteria": "aic"}, {}),
+         ("pburg", {"order": 20}, {"criteria": "AKICc"}, {}), ("pburg", {"order": 20}, {"criteria": "MDL"}, {}),
+         ("MT-unity", {"NW": 4, "k": 7}, None, {}), ("MT-eigen", {"NW": 4, "k": 8}, None, {}), ("MT-adapt", {"NW": 4, "k": 8}, None, {})]
+    return S
+
+
+def _short_specs(N):
+    """N = 9: every class at its smallest and its largest admissible order"""
+    S = [("Periodogram", {"window": "hann"}, None, {}), ("Periodogram", {"window": "rectangular"}, {"detrend": "mean"}, {}),
+         ("pcorrelogram", {"lag": N - 1, "window": "hamming"}, None, {}), ("pcorrelogram", {"lag": 1, "window": "hamming"}, None, {}),
+         ("pburg", {"order": N - 2}, None, {}), ("pburg", {"order": 1}, None, {}), ("pyule", {"order": N - 1}, None, {}),
+         ("pyule", {"order": 1}, None, {}), ("pcovar", {"order": N // 2 - 1}, None, {}), ("pcovar", {"order": 1}, None, {}),
+         ("pmodcovar", {"order": N // 2 - 1}, None, {}), ("pmodcovar", {"order": 1}, None, {}),
+         ("parma", {"order": 1, "Q": 1, "lag": 3}, None, {}), ("parma", {"order": 2, "Q": 1, "lag": 5}, None, {}),
+         ("pma", {"Q": 1, "M": 2}, None, {}), ("pma", {"Q": 2, "M": N - 1}, None, {}),
+         ("pminvar", {"order": 2}, None, {}), ("pminvar", {"order": N // 2}, None, {}),
+         ("pmusic", {"order": 2, "nsig": 1}, None, {}), ("pev", {"order": 5, "nsig": None}, {"criteria": "aic"}, {}),
+         ("pmusic", {"order": 5, "nsig": None}, {"threshold": 2.0}, {}), ("pev", {"order": 4, "nsig": 3}, None, {}),
+         ("pburg", {"order": 5}, {"criteria": "AIC"}, {}), ("pburg", {"order": 5}, {"criteria": "FPE"}, {}),
+         ("MT-unity", {"NW": 1.5, "k": 1}, None, {}), ("MT-eigen", {"NW": 1.5, "k": 3}, None, {}), ("MT-adapt", {"NW": 1.5, "k": 2}, None, {})]
+    return S
+
+
+def _spec_case(spec, x, c, nfft, **more):
+    cls, cfg, opt, extra = spec
+    q = {"cls": cls, "x": x, "c": c, "nfft": nfft, "explicit": True}
+    if cfg is not None:
+        q["cfg"] = dict(cfg)
+    if opt:
+        q["opt"] = dict(opt)
+    q.update(extra)
+    q.update(more)
+    N = len(x)
+    need = C.min_nfft(cls, N, cfg or C.default_cfg(cls, N, np.iscomplexobj(x)))
+    if (q["nfft"] or N) < need:
+        q["nfft"] = need
+    return q
+
+
+def _fx_long(N):
+    return {"burg": (12,), "yule": (12,), "covar": (12,), "ma": ((6, 20),), "arma": ((6, 6, 30), (3, 5, 24)), "minvar": ((10, 128),),
+            "eigen": ((30, 128, {"criteria": "mdl"}), (30, 128, {"threshold": 3.0}), (30, 128, {"criteria": "aic"}), (30, 128, {"NSIG": 4})),
+            "crit": tuple(CRITS), "critorder": 20, "corr": (20,), "correlogram": ((40, 128), (20, 41)),
+            "sper": ({}, {"NFFT": N + 7, "detrend": False, "scale_by_freq": False, "window": "hann"}), "mtm": ((4, None, N + 7),)}
+
+
+def _fx_short(N):
+    return {"burg": (1, N - 2), "yule": (1, N - 1), "covar": (1, N // 2 - 1), "ma": ((1, 2), (2, N - 1)), "arma": ((1, 1, 3), (2, 1, 5)),
+            "minvar": ((2, 16), (N // 2, 16)),
+            "eigen": ((2, 16, {"NSIG": 1}), (5, 17, {}), (5, 17, {"threshold": 2.0}), (4, 16, {"NSIG": 0}), (4, 16, {"NSIG": 3}),
+                      (5, 16, {"criteria": "mdl"})),
+            "crit": tuple(CRITS), "critorder": 5, "corr": (N - 1, 1), "correlogram": ((N - 1, 2 * N - 1), (1, N)),
+            "sper": ({}, {"NFFT": N, "detrend": False, "window": "rectangular"}, {"NFFT": 16, "sampling": 3.}),
+            "mtm": ((1.5, 2, 16), (1.5, 1, N), (2.0, None, 2 * N + 1))}
+
+
+def _fx_mid(N):
+    return {"burg": (5, N - 2), "yule": (5, N - 1), "covar": (4, N // 2 - 1), "ma": ((3, 8), (8, 20)), "arma": ((3, 3, 8), (5, 3, 14), (1, 3, 8)),
+            "minvar": ((5, 32), (N // 2, 64)),
+            "eigen": ((6, 32, {}), (6, 32, {"NSIG": 2}), (6, 32, {"threshold": 2.0}), (12, 65, {"criteria": "mdl"}), (6, 32, {"NSIG": 0}),
+                      (6, 32, {"NSIG": 5}), (20, 64, {"threshold": 50.0})),
+            "crit": tuple(CRITS), "critorder": 10, "corr": (5, N - 1), "correlogram": ((6, 32), (N - 1, 2 * N - 1)),
+            "sper": ({}, {"NFFT": 64, "detrend": False, "scale_by_freq": False}), "mtm": ((2.5, None, 64), (4, 8, N))}
+
+
 def gen(rng, nrng, tier):
-    n = 14 if tier == "quick" else 150
+    quick = tier == "quick"
+    n = 20 if quick else 150
     for i in range(n):
         cplx = bool(i % 2)
         x = _data(nrng, 40, cplx)
-        yield ("func", {"x": x, "c": _scalars(nrng, cplx, i)})
+        yield ("func", {"x": x, "y": _data2(nrng, 40, cplx), "c": _scalars(nrng, cplx, i // 2)})
     # "all data vectors": the same laws on records of very small and very large amplitude (c stays in [1e-3, 1e3])
-    for i, amp in enumerate((1e-8, 1e5, 2.0 ** -40, 1e-10, 3e6) if tier == "quick" else (1e-8, 1e5, 2.0 ** -40, 1e-10, 3e6, 1e-12, 1e7, 1e3, 1e-5)):
+    for i, amp in enumerate((1e-8, 1e5, 2.0 ** -40, 1e-10, 3e6) if quick else (1e-8, 1e5, 2.0 ** -40, 1e-10, 3e6, 1e-12, 1e7, 1e3, 1e-5)):
         for cplx in (False, True):
             yield ("func", {"x": amp * _data(nrng, 40, cplx), "c": [1000.0, 0.001, -3.0][i % 3]})
-    for i in range(2 if tier == "quick" else 12):
+    for i in range(2 if quick else 12):
         NB = 256
         tb = np.arange(NB)
         xb = np.cos(0.4 * tb) + 0.5 * np.cos(1.1 * tb + 1) + [1e-3, 1e-2][i % 2] * nrng.standard_normal(NB)
         yield ("bigeigen", {"x": xb, "P": [80, 96, 64, 100][i % 4], "c": 1.0, "cs": [1e-3, 1e3]})
-    m = 84 if tier == "quick" else 1000
+    # function form with orders taken from the case: long records, N = 9 with boundary orders, N = 40 with boundary orders,
+    # int64 record with an integer c, list input
+    r0 = int(nrng.integers(0, 1 << 20))
+    longs = [(256, False), (257, True), (300, True), (1024, False), (256, True), (257, False), (300, False), (1024, True)]
+    for i, (N, cplx) in enumerate(longs[:3] + [longs[3 + r0 % 5]] if quick else longs):
+        yield ("funcx", {"x": _data2(nrng, N, cplx), "c": _scalars(nrng, cplx, r0 + i), "q": _fx_long(N)})
+    for i in range(6 if quick else 20):
+        cplx = bool(i % 2)
+        yield ("funcx", {"x": _data2(nrng, 9, cplx), "c": _scalars(nrng, cplx, r0 + i // 2), "q": _fx_short(9)})
+    for i in range(4 if quick else 14):
+        cplx = bool(i % 2)
+        yield ("funcx", {"x": _data2(nrng, 40 + (i // 2) % 2, cplx), "c": _scalars(nrng, cplx, r0 + 3 + i // 2), "q": _fx_mid(40 + (i // 2) % 2)})
+    ints = [-3, 1000, 7, -1000, 2]
+    for i in range(3 if quick else 10):
+        xi = nrng.integers(-9, 10, 40)
+        xi[0] = xi[0] or 1
+        yield ("funcx", {"x": xi, "c": ints[i % len(ints)], "q": _fx_mid(40)})
+    for i in range(4 if quick else 12):
+        cplx = bool(i % 2)
+        yield ("funcx", {"x": _data2(nrng, 40, cplx), "c": _scalars(nrng, cplx, r0 + 1 + i // 2), "q": _fx_mid(40), "aslist": True})
+    for i in range(1 if quick else 4):
+        xi = nrng.integers(-9, 10, 40)
+        xi[0] = xi[0] or 1
+        yield ("funcx", {"x": xi, "c": ints[(i + 1) % len(ints)], "q": _fx_mid(40), "aslist": True})
+    # class form: class x {default, random / boundary cfg} x {real, complex}, the four choices on independent digits of the index
+    nc = len(C.CLASSES)
+    m = 112 if quick else 1008
     for i in range(m):
-        cls = C.CLASSES[i % len(C.CLASSES)]
-        cplx = bool((i // len(C.CLASSES)) % 2)
+        ci = i % nc
+        g = i // nc
+        cls = C.CLASSES[ci]
+        rcfg = bool(g % 2)
+        cplx = bool((g // 2) % 2)
+        t = g // 4
         x = _data(nrng, 40, cplx)
-        q = {"cls": cls, "x": x, "c": _scalars(nrng, cplx, i // 2), "nfft": [None, 64, 65][i % 3]}
-        if i % 2:
-            q["cfg"] = C.random_cfg(nrng, cls, len(x), boundary=(i % 8 == 7))
+        q = {"cls": cls, "x": x, "c": _scalars(nrng, cplx, t + ci), "nfft": [None, 64, 65][i % 3]}
+        if rcfg:
+            q["cfg"] = C.random_cfg(nrng, cls, len(x), boundary=((t + ci) % 3 == 2))
             need = C.min_nfft(cls, len(x), q["cfg"])
             if (q["nfft"] or len(x)) < need:
                 q["nfft"] = need
         yield ("class", q)
-    k = 48 if tier == "quick" else 600
+    # explicit configurations and constructor options (every one on real and on complex data)
+    specs = _class_specs(40)
+    for j, spec in enumerate(specs):
+        for cplx in (False, True):
+            if not quick or (j + r0 + int(cplx)) % 2 == 0 or spec[0] != "Periodogram" or spec[2]:
+                x = _data2(nrng, 40, cplx) if (j + int(cplx)) % 2 else _data(nrng, 40, cplx)
+                yield ("class", _spec_case(spec, x, _scalars(nrng, cplx, r0 + j), [None, 64, 65][(j // 2) % 3]))
+    for i, (N, cplx) in enumerate(longs[r0 % 8:][:2] + longs[:r0 % 8][:1] if quick else longs):
+        x = _data2(nrng, N, cplx)
+        for j, spec in enumerate(_long_specs(N)):
+            if not quick or (j + i + r0) % 3 == 0:
+                yield ("class", _spec_case(spec, x, _scalars(nrng, cplx, r0 + i + j), [None, N + 7][(i + j) % 2]))
+    for i in range(2 if quick else 8):
+        cplx = bool(i % 2)
+        x = _data2(nrng, 9, cplx)
+        for j, spec in enumerate(_short_specs(9)):
+            yield ("class", _spec_case(spec, x, _scalars(nrng, cplx, r0 + i // 2 + j), [None, 16, 17][(i // 2 + j) % 3]))
+    for i in range(2 if quick else 6):
+        xi = nrng.integers(-9, 10, 40)
+        xi[0] = xi[0] or 1
+        for j, cls in enumerate(C.CLASSES):
+            if not quick or (i + j) % 2 == 0:
+                yield ("class", {"cls": cls, "x": xi, "c": ints[(i + j) % len(ints)], "nfft": [None, 64, 65][(i + j) % 3], "aslist": bool((i + j // 2) % 2)})
+    for i in range(2 if quick else 6):
+        cplx = bool(i % 2)
+        x = _data(nrng, 40, cplx)
+        for j, cls in enumerate(C.CLASSES):
+            if not quick or (i // 2 + j) % 2 == 0:
+                yield ("class", {"cls": cls, "x": x, "c": _scalars(nrng, cplx, r0 + i // 2 + j), "nfft": [None, 64, 65][(i + j) % 3], "aslist": True})
+    # model(c*x) vs impl(c*x)
+    k = 60 if quick else 600
     fns = ["burg", "aryule", "sper", "mtm", "burg"]
     for i in range(k):
         cplx = bool(i % 2)
         x = _data(nrng, 32, cplx)
         fn = fns[i % len(fns)]
-        p = {"x": x, "c": _scalars(nrng, cplx, i), "fn": fn, "order": 4, "nfft": 64}
+        # scalar index: i // 2 walks the list for each kind of data; + i // 10 + i // 60 moves it against the criterion index below
+        p = {"x": x, "c": _scalars(nrng, cplx, i // 2 + i // 10 + i // 60), "fn": fn, "order": 4, "nfft": 64}
         if fn == "burg" and i % 5 == 4:
-            p["crit"] = CRITS[(i // 5) % 6]
+            p["crit"] = CRITS[(i // 10) % 6]      # i = 10k+4 is real, 10k+9 complex: both kinds get all six criteria
             p["order"] = 10
         yield ("scaled", p)
